@@ -163,4 +163,3 @@ package req
 //@   assert before WriteTrailer: wsBody == 2
 //@   ghostset after CloseBodyStream: wsClosed = true
 //@   top-ensures wsClosed
-
